@@ -196,6 +196,37 @@ class C25(Property):
                 ctx.case(case)
 
             ask(f"scaled {form} {which} {list_s(args, bits)}", check)
+        # (c') Peng scaled_parameters (widths / 2**2, potential / projected / projected-sf rows), all three tables, Ra always
+        import abtem.parametrizations as PP
+
+        ask("scaled peng div _", lambda out: ctx.agree("peng width divisor", {"kind": "pengdiv"}, unbits(out.split()[1]), 4.0))
+        for i in range(ctx.n(60, 600)):
+            tbl = rng.choice(["peng_high", "peng_low", "peng_ionic"])
+            sym = "Ra" if i == 0 else rng.choice(list(exact[tbl]))
+            tbl = "peng_high" if i == 0 else tbl
+            par = PP.PengParametrization(TABLES[tbl])
+            raw = np.array(par.parameters[sym], dtype=float)
+            sfp = np.array(par.scaled_parameters(sym, "scattering_factor"), dtype=float)
+            j = rng.randrange(5)
+            which = rng.choice(["potA", "potB", "projA", "projB", "psfA", "psfB", "div"])
+            rows = {"pot": "potential", "proj": "projected_potential", "psf": "projected_scattering_factor"}
+            if which == "div":
+                args, want, line = [], raw[1, j] / sfp[1, j], "scaled peng div _"
+            else:
+                sc = np.array(par.scaled_parameters(sym, rows[which[:-1]]), dtype=float)
+                a, b = raw[0, j], sfp[1, j]
+                args = {"potA": [a, b, kappa], "projA": [a, b, kappa], "psfA": [a, kappa]}.get(which, [b])
+                want = sc[0, j] if which.endswith("A") else sc[1, j]
+                line = f"scaled peng {which} {list_s(args, bits)}"
+            case = dict(kind="scaled", form="peng", table=tbl, which=which, symbol=sym, j=j)
+
+            def check(out, case=case, want=want):
+                model = unbits(out.split()[1])
+                ctx.agree(f"peng scaled_parameters {case['which']}", case, model, float(want), ok=abs(model - want) <= 1e-12 * abs(want))
+                ctx.count(f"scaled:peng:{case['which']}")
+                ctx.case(case)
+
+            ask(line, check)
         bad = ["entry nosuch H", "kernel lobato sf 0 1,2", "scaled peng A 1", "lobpoly"]
         outs = LeanDriver(self.drive_file).query(lines + bad)
         for fn, out in zip(todo, outs):
@@ -212,29 +243,42 @@ class C25(Property):
         sym = case["symbol"]
         kind = case["check"]
         if kind == "signs":
-            k = np.linspace(0.0, 6.0, 241)
-            f = np.asarray(par.scattering_factor(sym)(k ** 2), dtype=float)
-            raw = np.array(par.parameters[sym], dtype=float)
-            # float32 parameters: cancellation between the (mixed-sign) Lobato weights amplifies rounding by Σ|a| / |Σ a|
-            cond = float(np.abs(raw[0]).sum() / abs(raw[0].sum())) if case["parametrization"] == "lobato" else 1.0
-            scale = abs(f[0]) * cond
+            from abtem.parametrizations.functions import kirkland, lobato, peng
+
+            name = case["parametrization"]
+            tag = f"{case.get('table', name).replace('.json', '')}:{sym}"
+            sf_fn = {"lobato": lobato.scattering_factor, "kirkland": kirkland.scattering_factor, "peng": peng.scattering_factor_k2}[name]
+            pot_fn = {"lobato": lobato.potential, "kirkland": kirkland.potential, "peng": peng.scattering_factor}[name]
+            psf_fn = {"lobato": lobato.projected_scattering_factor, "kirkland": kirkland.projected_scattering_factor,
+                      "peng": peng.scattering_factor_k2}[name]
+            k = np.linspace(0.0, 6.0, 481)
+            r = np.linspace(0.01, 3.0, 300)
+            # float64 evaluation of the kernels at scaled_parameters: strict sign / monotonicity, no conditioning allowance
+            f = np.asarray(sf_fn(k ** 2, np.array(par.scaled_parameters(sym, "scattering_factor"), dtype=np.float64)), dtype=float)
+            v = np.asarray(pot_fn(r, np.array(par.scaled_parameters(sym, "potential"), dtype=np.float64)), dtype=float)
+            psf = np.asarray(psf_fn(k ** 2, np.array(par.scaled_parameters(sym, "projected_scattering_factor"), dtype=np.float64)), dtype=float)
             if not (f > 0).all():
-                ctx.violation(f"{case['parametrization']}-scattering-factor-not-positive", case, {"min": float(f.min()), "at k": float(k[int(f.argmin())])})
-            if (np.diff(f) > 2e-6 * scale).any():
+                ctx.violation(f"{tag}:scattering-factor-not-positive", case, {"min": float(f.min()), "at k": float(k[int(f.argmin())])})
+            if (np.diff(f) >= 0).any():
                 i = int(np.argmax(np.diff(f)))
-                ctx.violation(f"{case['parametrization']}-scattering-factor-not-decreasing", case, {"k": float(k[i]), "increase": float(np.diff(f)[i])})
-            r = np.linspace(0.02, 3.0, 150)
-            v = np.asarray(par.potential(sym)(r), dtype=float)
+                ctx.violation(f"{tag}:scattering-factor-not-decreasing", case, {"k": float(k[i]), "increase": float(np.diff(f)[i])})
             if not (v > 0).all():
-                ctx.violation(f"{case['parametrization']}-potential-not-positive", case, {"min": float(v.min()), "at r": float(r[int(v.argmin())])})
-            if (np.diff(v) > 2e-6 * abs(v[-1])).any():
+                ctx.violation(f"{tag}:potential-not-positive", case, {"min": float(v.min()), "at r": float(r[int(v.argmin())])})
+            if (np.diff(v) >= 0).any():
                 i = int(np.argmax(np.diff(v)))
-                ctx.violation(f"{case['parametrization']}-potential-not-decreasing", case, {"r": float(r[i]), "increase": float(np.diff(v)[i])})
-            # reciprocal-space consistency: projected scattering factor = scattering factor / kappa (proved algebraically for the kernels)
-            psf = np.asarray(par.projected_scattering_factor(sym)(k ** 2), dtype=float)
-            if np.abs(psf * kappa - f).max() > 2e-5 * scale:
-                ctx.violation(f"{case['parametrization']}-projected-scattering-factor-differs-from-sf-over-kappa", case,
-                              {"max rel diff": float(np.abs(psf * kappa - f).max() / scale)})
+                ctx.violation(f"{tag}:potential-not-decreasing", case, {"r": float(r[i]), "increase": float(np.diff(v)[i])})
+            raw = np.array(par.parameters[sym], dtype=float)
+            cond = float(np.abs(raw[0]).sum() / abs(raw[0].sum()))
+            # proved algebraically for the kernels; numba evaluates π in float32 inside the Lobato/Kirkland projected kernels
+            if np.abs(psf * kappa - f).max() > 1e-6 * cond * abs(f[0]):
+                ctx.violation(f"{tag}:projected-scattering-factor-differs-from-sf-over-kappa", case,
+                              {"max rel diff": float(np.abs(psf * kappa - f).max() / abs(f[0]))})
+            # public API (float32 parameters): agrees with the float64 kernels up to float32 rounding × conditioning
+            fa = np.asarray(par.scattering_factor(sym)(k ** 2), dtype=float)
+            va = np.asarray(par.potential(sym)(r), dtype=float)
+            if np.abs(fa - f).max() > 3e-6 * cond * abs(f[0]) or np.abs(va - v).max() > 3e-6 * cond * np.abs(v).max():
+                ctx.violation(f"{tag}:public-api-differs-from-float64-kernels", case,
+                              {"sf": float(np.abs(fa - f).max() / abs(f[0])), "pot": float(np.abs(va - v).max() / np.abs(v).max())})
         elif kind == "transforms":  # VALIDATION by quadrature (the transform pairs are not formalised)
             from scipy.integrate import quad
             from scipy.special import j0
@@ -270,23 +314,27 @@ class C25(Property):
 
     def conformance(self, ctx: Ctx):
         rng = ctx.rng
-        # the Peng entries with one negative Gaussian weight are outside the theorems: always sampled here
-        always = {"peng_high": ["Ra"], "peng_low": ["Rb", "Np"]}
-        for name, tbl in (("lobato", "lobato"), ("kirkland", "kirkland"), ("peng", "peng_high"), ("peng", "peng_low")):
-            syms = list(load_exact(tbl))
-            for sym in (syms if ctx.thorough else rng.sample(syms, 30 if tbl != "peng_low" else 8) + always.get(tbl, [])):
+        # every element of every table in both tiers (the float64 sign oracle costs milliseconds per element)
+        for name, tbl in (("lobato", "lobato"), ("kirkland", "kirkland"), ("peng", "peng_high"), ("peng", "peng_low"), ("peng", "peng_ionic")):
+            n_before = ctx.evaluations
+            for sym in load_exact(tbl):
                 case = dict(parametrization=name, symbol=sym, check="signs")
-                if tbl == "peng_low":
-                    case["table"] = "peng_low.json"
+                if tbl in ("peng_low", "peng_ionic"):
+                    case["table"] = TABLES[tbl]
                 self.oracle(ctx, case)
-                ctx.count(f"signs:{name}")
+                ctx.count(f"signs:{tbl}")
                 ctx.case(case)
-        for _ in range(ctx.n(4, 40)):
-            name = rng.choice(["lobato", "kirkland", "peng"])
-            case = dict(parametrization=name, symbol=rng.choice(["C", "Si", "Cu", "Au", "O", "Sr"]), check="transforms",
-                        R=rng.choice([0.25, 0.5, 1.0]), k=rng.choice([0.25, 0.5, 1.0]))
+            if ctx.evaluations == n_before:
+                ctx.violation(f"{tbl}:sign-oracle-never-exercised", {"table": tbl}, {})
+        fixed = [dict(parametrization="peng", symbol="Ra", R=0.5, k=0.5), dict(parametrization="lobato", symbol="He", R=0.5, k=0.5),
+                 dict(parametrization="kirkland", symbol="H", R=0.25, k=1.0)]
+        for i in range(ctx.n(10, 60)):
+            case = dict(fixed[i]) if i < len(fixed) else dict(
+                parametrization=rng.choice(["lobato", "kirkland", "peng"]), symbol=rng.choice(["C", "Si", "Cu", "Au", "O", "Sr", "Fe", "U", "Li"]),
+                R=rng.choice([0.25, 0.5, 1.0]), k=rng.choice([0.25, 0.5, 1.0]))
+            case["check"] = "transforms"
             self.oracle(ctx, case)
-            ctx.count(f"transforms:{name}")
+            ctx.count(f"transforms:{case['parametrization']}")
             ctx.case(case)
 
     def replay(self, ctx: Ctx, case):
